@@ -15,7 +15,7 @@
     ([C02_vested_drained]). *)
 From LP Require Import Proofs.Tactics Proofs.LedgerBase Proofs.Gates Proofs.Frames Proofs.Settle Proofs.Confirm Proofs.Reserve Proofs.Ledger
   Proofs.ClaimLedger Proofs.Lock Proofs.Vesting Proofs.Examples
-  Proofs.Resume Proofs.Leftover Proofs.Lifecycle Proofs.VestedCover Proofs.VestedLifecycle Proofs.Setup Proofs.SetupGt Proofs.SetupVested Proofs.SetupCover.
+  Proofs.Resume Proofs.Leftover Proofs.Lifecycle Proofs.VestedCover Proofs.VestedLifecycle Proofs.Setup Proofs.SetupGt Proofs.SetupVested Proofs.SetupCover Proofs.CoverSteps.
 Open Scope N_scope.
 
 (** the single deposit: accepted iff nothing was deposited yet and the call value is exactly one
@@ -130,6 +130,34 @@ Theorem C02_cover_from_deployment_gt : forall (H : list N -> list N) v w0 lf wf 
   distribute_guaranteed_tickets H (vflag v) ed bd wd = Ok (w3, 0) ->
   exists l : list (N * N), ClaimInv w3 (map fst l) /\ CoverInv w3.
 Proof. exact deployed_cover_gt. Qed.
+
+(** any order of winners' claims and owner withdrawals (contracts that pay at once; [locked]: the
+    two-transfer payout of the locked variants) keeps both ledgers; once the owner has withdrawn, the
+    balance is exactly tokens-per-ticket x the winning tickets not yet claimed - zero when all are *)
+Theorem C02_any_order : forall locked w w' A,
+  CInvs locked w A -> csteps locked w w' -> CInvs locked w' A /\ (CoverEq w -> CoverEq w').
+Proof. exact Cover_steps. Qed.
+
+Theorem C02_after_owner : forall locked e w w1 w' A,
+  CInvs locked w A -> caller e <> sc_addr -> claim_ticket_payment e w = Ok w1 -> csteps locked w1 w' ->
+  CInvs locked w' A /\ bal w' sc_addr (lp_token (st w')) 0 = tpt (st w') * nr_winning (st w') /\
+  (nr_winning (st w') = 0 -> bal w' sc_addr (lp_token (st w')) 0 = 0).
+Proof. exact Cover_after_owner. Qed.
+
+Theorem C02_cover_from_deployment_to_the_end : forall (H : list N -> list N) v w0 lf wf ef bf w1 ls ws es bs w2 sd rest w3,
+  plain v -> setup_reach H v w0 -> deposited (st w0) = true ->
+  let locked := match v with Lock => true | _ => false end in
+  (locked = true -> lock_ok w0) ->
+  after_interrupted filter_tickets lf w0 = Some wf -> filter_tickets ef bf wf = Ok (w1, 0) ->
+  seeds w1 = sd :: rest ->
+  after_interrupted (select_winners H) ls w1 = Some ws -> select_winners H es bs ws = Ok (w2, 0) ->
+  csteps locked w2 w3 ->
+  exists l : list (N * N),
+    CInvs locked w3 (map fst l) /\
+    (forall e w3' w4, caller e <> sc_addr -> claim_ticket_payment e w3 = Ok w3' -> csteps locked w3' w4 ->
+       CInvs locked w4 (map fst l) /\ bal w4 sc_addr (lp_token (st w4)) 0 = tpt (st w4) * nr_winning (st w4) /\
+       (nr_winning (st w4) = 0 -> bal w4 sc_addr (lp_token (st w4)) 0 = 0)).
+Proof. exact deployed_cover_to_end. Qed.
 
 (** ** the vested contracts (guaranteed-tickets, guaranteed-tickets-v2) *)
 
@@ -280,6 +308,9 @@ Print Assumptions C02_claim_covered_locked.
 Print Assumptions C02_owner_leaves_cover.
 Print Assumptions C02_cover_from_deployment.
 Print Assumptions C02_cover_from_deployment_gt.
+Print Assumptions C02_any_order.
+Print Assumptions C02_after_owner.
+Print Assumptions C02_cover_from_deployment_to_the_end.
 Print Assumptions C02_vested_ledger.
 Print Assumptions C02_vested_pipeline.
 Print Assumptions C02_setup_ledger.
